@@ -527,10 +527,16 @@ def register_in_mps_quantizers(mod: fx.GraphModule):
             prev_n = n.meta['input_features_set_by']
             if prev_n.op == 'placeholder':
                 continue
+            # the input quantizer is the output quantizer of the MPS layer that last (re-)quantized
+            # the consumed tensor: walk the data path, not the features-defining chain (a depthwise
+            # conv. or an add fed by the network input is not features-defining, but re-quantizes)
+            prev_n = n.all_input_nodes[0]
             while not is_inherited_layer(prev_n, mod, (MPSModule,)):
-                prev_n = prev_n.meta['input_features_set_by']
-                if isinstance(prev_n, list):
-                    prev_n = prev_n[0]
+                if len(prev_n.all_input_nodes) == 0:
+                    break
+                prev_n = prev_n.all_input_nodes[0]
+            if not is_inherited_layer(prev_n, mod, (MPSModule,)):
+                continue
             prev_submod = mod.get_submodule(str(prev_n.target))
             sub_mod.in_mps_quantizer = cast(MPSPerLayerQtz, prev_submod.out_mps_quantizer)
 
